@@ -165,12 +165,45 @@ def stale_tmp(ctx, r):
         base.close()
 
 
+def plan_after_tear(ctx):
+    """a writer killed in the middle of a line, and the *next* mutating command is `plan` (it publishes a whole new file: nothing has repaired the tail
+    before it) or `compact`: reads, a later mutation and the old items must all still be there"""
+    from ..histories import TORN_FRAGMENTS
+    for frag in TORN_FRAGMENTS[:3]:
+        for argv, stdin in ((["--json", "plan"], b'{"title":"P","tasks":[{"title":"a"},{"title":"b","after":["a"]}]}'), (["--json", "compact"], None)):
+            st = cmdrun.Store(ctx.ergo, ctx.go)
+            trace = []
+            try:
+                def ex(a, s_=None):
+                    res = st.exec(a, s_); trace.append({"argv": a, "stdin": None if s_ is None else s_.decode(), "exit": res["exit"]}); return res
+                kept = json.loads(ex(["--json", "new", "task"], b'{"title":"acknowledged before the crash"}')["stdout"])["id"]
+                with open(st.log_path(), "ab") as f:
+                    f.write(frag)
+                trace.append({"edit": "torn fragment appended to the log, no newline", "bytes": frag.decode("utf-8", "replace")})
+                res = ex(argv, stdin)
+                ctx.count(1, key=("rewrite-after-tear", argv[1], len(frag)))
+                prob = crash.reads_ok(st)
+                g = st.graph()
+                if res["exit"] != 0 or prob or "err" in g:
+                    ctx.violation("C03 store bricked by a rewrite (%s) after tear" % argv[1] if (prob or "err" in g) else "C03 mutation fails after tear in %s" % argv[1],
+                                  prob or g.get("err", "")[:200] or "%s exits %s: %s" % (argv[1], res["exit"], res["stderr"].strip()[:160]), {"trace": trace}); return
+                if not oracles.task_of(g["graph"], kept):
+                    ctx.violation("C03 acknowledged work lost after tear in %s" % argv[1], "the task created before the crash is gone", {"trace": trace}); return
+                nxt = ex(["--json", "new", "task"], b'{"title":"after"}')
+                prob = crash.reads_ok(st)
+                if nxt["exit"] != 0 or prob:
+                    ctx.violation("C03 store bricked by a mutation after tear", prob or nxt["stderr"].strip()[:200], {"trace": trace}); return
+            finally:
+                st.close()
+
+
 def run(ctx):
     framework.check_facts(ctx, ctx.facts, ["with_lock", "writer_calls", "truncate_sites", "open_sites"])
     r = gen.Rng(ctx.seed * 1000003 + 3)
     for i in range(16 if ctx.quick else 250):
         # every third script runs on a log spanning several 64 KiB blocks (the tail repair scans backwards in blocks)
         one_script(ctx, r.fork(), 3 if ctx.quick else 5, big=([0, 0, 130, 0, 0, 260][i % 6]))
+    plan_after_tear(ctx)
     for i in range(2 if ctx.quick else 25):
         stale_tmp(ctx, r.fork())
     # the byte-level writer (tail repair + append) against the Lean storage model, incl. lines longer than the 64 KiB scan block
